@@ -85,6 +85,18 @@ def main():
             w.dump(f)
         wm.save_wallet(w)
         return
+    if mode == "restart-open":
+        # what every script of the package does first after a restart: open the wallet the documented way (nothing else)
+        quiet_import()
+        from skepticoin.scripts.utils import open_or_init_wallet
+        out = sys.stdout
+        sys.stdout = io.StringIO()
+        try:
+            w = open_or_init_wallet()
+        finally:
+            sys.stdout = out
+        print("KEYS %d" % len(w.keypairs))
+        return
     if mode == "receive":
         quiet_import()
         import skepticoin.scripts.receive as rc
